@@ -71,7 +71,7 @@ static void build_samples(Rng& rng, const Paths64& P, const Paths64& R, int conv
     for (int i = 0; i < 50; ++i) sp.add((ld)x0 + rng.unit() * ((ld)x1 - (ld)x0), (ld)y0 + rng.unit() * ((ld)y1 - (ld)y0));
   }
   std::vector<ld> offs_edge, offs_vert;
-  if (small) { offs_edge = { -3, -1, 1, 3 }; offs_vert = { -3, -1.5L, 1.5L, 3 }; }
+  if (small) { offs_edge = { -(t + 1), t + 1, -3 * t, 3 * t }; offs_vert = offs_edge; }
   else {
     offs_edge = { delta - (t + 1), delta + (t + 1), delta - 3 * t, delta + 3 * t };
     offs_vert = offs_edge;
@@ -106,6 +106,16 @@ static void build_samples(Rng& rng, const Paths64& P, const Paths64& R, int conv
       if (bl < 1e-6L) continue;
       bx /= bl; by /= bl;
       for (ld s : offs_vert) { if (thin && rng.coin()) continue; sp.add((ld)b.x + bx * s, (ld)b.y + by * s); }
+      // two more directions inside the fan between the two normals (arc chords, ends of the arc), just inside and
+      // just outside the round front
+      if (!small) for (int e = 0; e < 2; ++e) {
+        ld f2 = e == 0 ? rng.real(0.0, 1.0) : (rng.coin() ? rng.real(0.0, 0.12) : rng.real(0.88, 1.0));
+        ld fx = nx * (1 - f2) + mx * f2, fy = ny * (1 - f2) + my * f2, fl = sqrtl(fx * fx + fy * fy);
+        if (fl < 1e-6L) continue;
+        fx /= fl; fy /= fl;
+        sp.add((ld)b.x + fx * (delta - (t + 1)), (ld)b.y + fy * (delta - (t + 1)));
+        if (!thin || rng.coin()) sp.add((ld)b.x + fx * (delta + (t + 1)), (ld)b.y + fy * (delta + (t + 1)));
+      }
     }
   }
   // near the output: both sides of a few edges of every result path, and the vertex average
@@ -172,8 +182,8 @@ static void judge(Ctx& ctx, const Case& c, bool from_replay) {
   {
     std::vector<offs::PathNest> nest = offs::nesting_of(R);
     for (size_t i = 0; i < R.size(); ++i) {
-      if (nest[i].undecided) { ctx.count("orientation_paths_undecided"); continue; }
-      if (nest[i].sign == 0) { ctx.count("result_zero_area_paths"); continue; }
+      if (!nest[i].sliver && nest[i].undecided) { ctx.count("orientation_paths_undecided"); continue; }
+      if (nest[i].sliver) { ctx.count("orientation_paths_skipped_sliver"); continue; }
       ctx.count("orientation_paths_checked");
       int want = sigma * ((nest[i].depth & 1) ? -1 : 1);
       if (nest[i].sign != want) {
@@ -211,18 +221,18 @@ static void judge(Ctx& ctx, const Case& c, bool from_replay) {
   for (const Point64& q : sp.pts) {
     offs::Probe pr = jt == JT_BEVEL && !small ? offs::probe(P, q, ad - tm, tm) : offs::probe(P, q);
     if (!pr.on && pr.w != 0 && pr.w != conv) { ctx.count("input_winding_unexpected"); continue; }   // cannot happen on verified scenes
+    Expect ex;
+    if (small) ex = pr.on || pr.d <= tm ? EX_NONE : (pr.w != 0 ? EX_IN : EX_OUT);
+    else ex = expectation(jt, delta, tm, k, conv, pr);
+    if (ex == EX_NONE) { ++band; continue; }
+    if (ex == EX_IN) ++jin; else ++jout;
     bool onR = false;
     int W = winding(R, q, &onR);
     if (!onR && W != 0 && W != sigma) {
       ctx.violation("C06.orientation", { "winding_out_of_range", small ? "small_delta" : dirtag }, c,
-        "winding number of the result at " + ptstr(q) + " is " + std::to_string(W) + ", only 0 and " + std::to_string(sigma) + " are possible");
+        "winding number of the result at " + ptstr(q) + " (outside the tolerance band) is " + std::to_string(W) + ", only 0 and " + std::to_string(sigma) + " are possible");
       return;
     }
-    Expect ex;
-    if (small) ex = pr.on || pr.d < 0.5L ? EX_NONE : (pr.w != 0 ? EX_IN : EX_OUT);
-    else ex = expectation(jt, delta, tm, k, conv, pr);
-    if (ex == EX_NONE) { ++band; continue; }
-    if (ex == EX_IN) ++jin; else ++jout;
     bool bad = onR || (ex == EX_IN ? W != sigma : W != 0);
     if (!bad) continue;
     ld sd = offs::signed_dist(pr);
@@ -294,7 +304,9 @@ void vf_case(Ctx& ctx, uint64_t i) {
   double delta = shrink ? -ad : ad;
   double ml = r.pick(std::vector<double>{ 1.0, 2.0, 5.0 });
   int ati = r.irange(0, 2);
-  double at = ati == 0 ? 0.0 : (ati == 1 ? 0.25 : 0.01 * S);
+  // 0.25 asks for pi/acos(1-0.25/|delta|) steps per circle, i.e. millions of vertices per join for |delta| >= 2^30: the
+  // fixed tolerance is therefore raised to |delta|/32768 (<= ~400 steps per circle) for large deltas
+  double at = ati == 0 ? 0.0 : (ati == 1 ? std::max(0.25, ad / 32768.0) : 0.01 * S);
 
   Case c;
   c.p64["S"] = P;
